@@ -349,14 +349,14 @@ def run(rep):
                 'alternating) with thresholds at age-1 / age / age+1 seconds (and hours) against that reading and the model; the real binary, real run '
                 'and -d, %d rules x 2 locales over a maildir holding all of them: moved = listed = (age CMP threshold), exit status 0, no diagnostic; '
                 'texts that are no date: left, not listed, a diagnostic each, exit status not 0; non-trivial = accepted/parsed inputs'
-                % (ntz, n, len(TZS), stat['age_cases'], len(conffam.int_literals(rep.tier)), len(conffam.unit_lexemes(rep.tier)), len(pcases) +
+                % (ntz, n, len(TZS), stat['age_cases'], len(conffam.int_literals(rep.tier)), len(conffam.unit_lexemes(rep.tier)), len(pcases),
+                   sum(lstat['texts']['per_instant']), lstat['texts']['tails'], lstat['texts']['refuse'], lstat['texts']['observe'], lstat.get('process_rules', 0)) +
                 '; header text: %d strptime / timeparse() / time_parse() requests on structured and mutated date texts (every layout of formats[], '
                 'with / without day name, full / abbreviated / odd-case / truncated names, 1-5 digit fields, out-of-range fields, seconds 60 / 61, '
                 'all kinds of white space, trailing zone text) against the executable model of strptime; %d date-times of the RFC 5322 grammar '
                 '(Spec.renderDate / instant / WellFormed against an independent rendering, then time_parse of the text = the instant inside '
                 'Covered, rejected for the form without day of week and seconds); %d date conditions evaluated with the model of strptime as the oracle'
                 % (dstat['strptime_requests'], dstat['rfc_datetimes'], stat.get('model_strptime_eval_cases', 0)),
-                   sum(lstat['texts']['per_instant']), lstat['texts']['tails'], lstat['texts']['refuse'], lstat['texts']['observe'], lstat.get('process_rules', 0)),
         'samples': [{'request': d.line(reqs[i])[:200], 'implementation': impl[i], 'model': model[i], 'specification': spec[i]} for i in rng.sample(range(len(reqs)), 4)],
         'distribution': dict(stat, **dstat),
         'date_text_locale_stage': lstat,
